@@ -174,6 +174,6 @@ def search(ctx):
 
 CLAIM = {
     "text": "every public text deserializer entry point (from_*_slice, from_*_tape, ObjectReader::deserialize, from_*_reader over a scripted Read) is run through a runtime-shape serde interpreter on generated documents x layouts x encodings x shapes and compared with an independently computed expected value; Coq: see coverage.theorems",
-    "note": "Props/C02.v pins the scalar/struct level; Props/C02_walk.v pins the deserializer walks: for every document of the core grammar (scalars, objects of key-op-value fields, arrays, any nesting) and every shape that fits, the extracted tape walk (TextDeTape.deser_tape on flatten d) and the stream walk (TextDeStream.deser_stream on the reader's tokens of d) both return spec_value, hence agree; findings H and M are reproduced by the models as witness theorems. Outside the core grammar (object tails / 'remainder', key-value arrays, headers, parameters, ghosts, any on containers) the walks are modelled and compared with the implementation case by case (stream walk_model, incl. a 390-case hand corpus) but not proved. The byte-level lexing under every layout and buffer size is C01/C07; the stream model runs over the reader's token list (skip_container at token level).",
+    "note": "Props/C02.v pins the scalar/struct level; Props/C02_walk.v pins the deserializer walks: for every document of the core grammar (scalars, objects of key-op-value fields, arrays, any nesting) and every shape that fits, the extracted tape walk (TextDeTape.deser_tape on flatten d) and the stream walk (TextDeStream.deser_stream on the reader's tokens of d) both return spec_value, hence agree; findings H and M are reproduced by the models as witness theorems. Outside the core grammar (object tails / 'remainder', key-value arrays, headers, parameters, ghosts, any on containers) the walks are modelled and compared with the implementation case by case (stream walk_model, incl. a 390-case hand corpus) but not proved. Props/C02_walk2.v composes the walks with the byte level (from_slice via C01_parse_render for every layout; from_reader via the reference tokenizer and C07_stream_eq_tok for every schedule and fitting capacity, on documents without parameter blocks whose bare words do not start with '?') and extends the tape walk theorem to the whole TextDoc grammar against TextDeSpec2.spec_value2 (remainder key for object tails and arrays where a map is asked for, {} as the empty object, headers into seq/tuple/String/number/enum/ignored, parameter blocks); the stream half beyond the core grammar is not proved (difference witnesses only). The stream model runs over the reader's token list (skip_container at token level).",
     "technique": "machine-checked proof in Coq over an executable model + model/implementation correspondence by extraction + specification oracle on the implementation",
 }
